@@ -65,6 +65,16 @@ def gen(ctx):
         cases.append({"op": "roundtrip", "a": str(a)})
     for s in strings(rng, n):
         cases.append({"op": "from_str", "bytes": list(s.encode("utf-8"))})
+    # carries / borrows across every limb and half-limb boundary (a fast path on narrower integers,
+    # or a dropped carry, only shows on sums that cross 2^k with both operands below it)
+    for k in range(8, 257, 8):
+        for (a, b) in [(2 ** k - 1, 1), (2 ** (k - 1), 2 ** (k - 1)), (2 ** k - 1, 2 ** k - 1),
+                       (2 ** k - rng.randrange(1, 200), rng.randrange(200, 400)),
+                       (rng.getrandbits(k) | (1 << (k - 1)), rng.getrandbits(k) | (1 << (k - 1)))]:
+            if 0 <= a < U256 and 0 <= b < U256:
+                cases.append({"op": "add", "a": str(a), "b": str(b)})
+                cases.append({"op": "sub", "a": str(min(a + b, U256 - 1)), "b": str(b)})
+                cases.append({"op": "sub", "a": str(b), "b": str(a)})
     for _ in range(n // 2):
         a, b = rng.choice(ams), rng.choice(ams)
         if rng.random() < 0.3:
